@@ -6,9 +6,10 @@
         nor an exponent always denote an integer value; if the value overflows,
         it wraps around to fit into a valid integer."
    IM = ast.NewNumber (/repo/ast/number.go), integer branch: hexadecimal keeps
-        the last 16 digits and uses strconv.ParseUint(…, 16, 64); decimal uses
-        strconv.ParseUint(…, 10, 64) and only on its failure strconv.ParseFloat;
-        the uint64 is later reinterpreted as int64.
+        the last 16 digits and uses strconv.ParseUint(…, 16, 64), the uint64 being
+        reinterpreted as int64; decimal (as repaired) uses strconv.ParseInt(…, 10, 64),
+        which succeeds exactly for values <= 2^63-1, and on its failure
+        strconv.ParseFloat.
    A float result is represented by the natural number it must be nearest to
    ([NFloatOf n]; the rounding itself is strconv.ParseFloat's, trusted). *)
 From Coq Require Import ZArith List.
@@ -32,7 +33,7 @@ Definition s_dec (ds : list Z) : numval :=
 Definition s_hex (ds : list Z) : numval := NInt (wrap64 (digits_val 16 ds 0)).
 
 Definition go_dec (ds : list Z) : numval :=
-  let n := digits_val 10 ds 0 in if n <? 2 ^ 64 then NInt (wrap64 n) else NFloatOf n.
+  let n := digits_val 10 ds 0 in if n <=? 2 ^ 63 - 1 then NInt n else NFloatOf n.
 
 Definition go_hex (ds : list Z) : numval :=
   let ds' := if (16 <? length ds)%nat then skipn (length ds - 16) ds else ds in
